@@ -195,6 +195,11 @@ type Sess struct {
 	Steps int
 	// options
 	SkipStructure bool
+	// observations of the last Apply
+	LastCompact    pogreb.CompactionResult
+	ReopenLogStart int // log index at which the Open of the last Reopen started
+	NBackup        int
+	LastBackup     string
 }
 
 // KeyName maps key bytes back to a role name for messages.
@@ -258,8 +263,13 @@ func (s *Sess) Apply(o Op) error {
 		}
 		return err
 	case Compact:
-		_, err := s.DB.Compact()
+		cr, err := s.DB.Compact()
+		s.LastCompact = cr
 		return err
+	case Backup:
+		s.NBackup++
+		s.LastBackup = fmt.Sprintf("bak%d", s.NBackup)
+		return s.DB.Backup(s.LastBackup)
 	case Sync:
 		return s.DB.Sync()
 	case Reopen:
@@ -267,6 +277,7 @@ func (s *Sess) Apply(o Op) error {
 			return fmt.Errorf("Close: %v", err)
 		}
 		s.DB = nil
+		s.ReopenLogStart = len(s.FS.Log)
 		if err := s.OpenDB(); err != nil {
 			return fmt.Errorf("Open: %v", err)
 		}
